@@ -28,12 +28,12 @@ func isMiddlewareSlice(t types.Type) bool {
 }
 
 type chain struct {
-	k       *ssa.Function // the continuation closure
-	field   *types.Var    // the middleware slice field
-	idx     ssa.Value     // index value used to select the stage
-	stage   *ssa.Call     // call of the selected middleware
-	cmp     *ssa.BinOp    // idx < len(slice)
-	core    *ssa.Call     // call of the innermost handler
+	k     *ssa.Function // the continuation closure
+	field *types.Var    // the middleware slice field
+	idx   ssa.Value     // index value used to select the stage
+	stage *ssa.Call     // call of the selected middleware
+	cmp   *ssa.BinOp    // idx < len(slice)
+	core  *ssa.Call     // call of the innermost handler
 }
 
 // findChains discovers the continuation closures of the repository.
